@@ -491,7 +491,9 @@ Proc(e) ==
                 DP == Derive(P)
                 wf == ChainsOKD(S, D) /\ ValRefsOKD(S, D)
                 sf == StateFails(e.st, S, D, m) \cup
-                      (IF m \in DOMAIN meta /\ meta[m].n # S.n THEN {"C07.n"} ELSE {})     \* bucket count = BucketsFromParam at creation, for ever
+                      \* the stored bucket count never changes once the map exists (the value chosen at creation
+                      \* from the parameter is design: BucketsFromParam, reported as drift below)
+                      (IF ~IsNone(P) /\ P.n # S.n THEN {"C07.n"} ELSE {})
                 one == ~IsNone(P) /\ sinc[1] = 1
                 stepf == IF one THEN StepFails(P, DP, S, D, sinc[2]) ELSE {}
                 pk0 == Get0(aux.peak, m, NoPeak)
@@ -509,7 +511,11 @@ Proc(e) ==
                          THEN {} ELSE {"TOOL.native_disagrees"}
                       ELSE {}
             IN [base EXCEPT !.fails = sf \cup stepf \cup bf \cup nf,
-                            !.drift = IF ~IsNone(pred) /\ pred # S THEN ToJson(DiffS(pred, S)) ELSE "",
+                            !.drift = IF ~IsNone(pred) /\ pred # S THEN ToJson(DiffS(pred, S))
+                                      ELSE IF m \in DOMAIN meta /\ meta[m].n # S.n THEN "stored bucket count differs from BucketsFromParam(creation parameter)"
+                                      ELSE IF wf /\ FreeOKD(S, D) /\ ~PadOKD(S, D) THEN "bytes behind a record are not zero"
+                                      ELSE "",
+                            !.meta = IF m \in DOMAIN meta THEN Set(meta, m, [meta[m] EXCEPT !.n = S.n]) ELSE meta,
                             \* the design layer is advanced only from a sound state (its operators are partial on
                             \* corrupt structures); an unsound logged state stops the prediction until the next one
                             !.st = Set(st, m, IF sf \ {"C05.content", "C07.n"} = {} THEN S ELSE NoneS), !.last = Set(last, m, S),
